@@ -54,6 +54,7 @@ type FnContract struct {
 	HArgs       map[string]string // role -> parameter name
 	Ops         string            // "all" or comma list of opcodes for harnesses that enumerate op
 	MayPanic    bool
+	ParamNames  []string            // receiver and parameter names at the time the contract was written (clause `params`): a renamed parameter is still found by position
 	ModularSym  bool                // modular only at call sites whose string / slice arguments have symbolic lengths
 	SiteAsserts map[string][]string // call site -> assertions that must hold when the call is made
 	Split       string              // "<expr> <lo>..<hi>": ensures obligations are split by the value of expr
@@ -63,7 +64,7 @@ type FnContract struct {
 var posNameRe = regexp.MustCompile(`^(?:l(\d+))?phi(\d+)$`)
 
 var clauseKW = map[string]bool{"requires": true, "ensures": true, "panics": true, "onpanic": true, "assigns": true,
-	"modular": true, "trusted": true, "loop": true, "property": true, "case": true, "pure": true, "harness": true, "nosafety": true, "maypanic": true, "split": true, "at": true, "ops": true}
+	"modular": true, "trusted": true, "loop": true, "property": true, "case": true, "pure": true, "harness": true, "nosafety": true, "maypanic": true, "split": true, "at": true, "ops": true, "params": true}
 
 func (w *World) loadContracts() {
 	var paths []string
@@ -191,6 +192,9 @@ func (w *World) parseContractFile(pkgPath, file string) {
 					cur.HArgs[kv[:i]] = kv[i+1:]
 				}
 			}
+			lastClause = nil
+		case "params":
+			cur.ParamNames = strings.Fields(strings.ReplaceAll(rest, ",", " "))
 			lastClause = nil
 		case "modular":
 			cur.Modular = true
@@ -1208,6 +1212,47 @@ func (e *CEnv) call(n *ast.CallExpr) TV {
 			mt := m.T.Underlying().(*types.Map)
 			k := x.leafTerm(e.coerceKey(e.eval(n.Args[1]), mt.Key()).V)
 			return TV{Scalar{Select(x.heapGet(e.state(), mv.Obj).(MapT).Has, k)}, types.Typ[types.Bool]}
+		case "loopcount":
+			// loopcount(N): the number of completed iterations of loop N, read off its counting variable: the first
+			// loop-carried variable of the header that starts at a constant c and is incremented by one on every back
+			// edge (the index of an index loop: c = 0; the hidden index of a range loop: c = -1); the value is
+			// variable - c. Form-independent: the same clause fits `for i := 0; i < n; i++` and `for i := range`.
+			ord, _ := strconv.Atoi(n.Args[0].(*ast.BasicLit).Value)
+			if x.cur == nil || e.frame == nil || ord < 1 || ord > len(x.cur.headers) {
+				fail("contract: loopcount(%d) outside a function with such a loop", ord)
+			}
+			hdr := x.cur.headers[ord-1]
+			for _, ins := range hdr.Instrs {
+				phi, ok := ins.(*ssa.Phi)
+				if !ok {
+					break
+				}
+				var init *ssa.Const
+				step := false
+				for _, ed := range phi.Edges {
+					if c, isC := ed.(*ssa.Const); isC && c.Value != nil {
+						init = c
+						continue
+					}
+					if bo, isB := ed.(*ssa.BinOp); isB && bo.Op == token.ADD && bo.X == ssa.Value(phi) {
+						if c1, isC := bo.Y.(*ssa.Const); isC && c1.Value != nil && c1.Int64() == 1 {
+							step = true
+							continue
+						}
+					}
+					init, step = nil, false
+					break
+				}
+				if init == nil || !step {
+					continue
+				}
+				if v, has := e.frame.get(phi); has {
+					if sc, isS := v.(Scalar); isS && sc.T.S.Kind == 1 {
+						return TV{Scalar{bin("bvsub", sc.T, Const(sc.T.S.W, uint64(init.Int64())))}, phi.Type()}
+					}
+				}
+			}
+			fail("contract: loop %d has no counting variable (constant start, +1 on every back edge)", ord)
 		case "visited":
 			// visited(N, k): key k has been produced by the map range that drives loop N of the function under verification
 			ord, _ := strconv.Atoi(n.Args[0].(*ast.BasicLit).Value)
